@@ -93,6 +93,10 @@ func c10Str(r *core.Rand) string {
 	case 9:
 		return "${" + v() + ":-}"
 	case 10:
+		if r.Intn(2) == 0 {
+			// escapes that are not followed by a name: the escape is still an escape (one dollar in the result)
+			return core.Pick(r, []string{"$$5", "\\$ ", "^v[0-9]+$$", "\\$(date)", "costs $$5.00", "$$", "a$$-b", "$$$$", "100%$$"})
+		}
 		return "plain"
 	case 11:
 		return "$" + v() + "$" + v()
